@@ -12,13 +12,17 @@ Monitors (all on real searches of real indexes built from generated corpora):
            default constantscore=True) score every hit with the documented constant.
  context   the score of (doc, query) is the same with terms recording on/off, under a filter, under a
            limit, and (no deletions) for the same corpus split into several segments.
+ collector every 5th case is a staged corpus (multi-block posting lists, strong documents early and late):
+           40 block-skipping trees (And/Or/AndMaybe/Require/AndNot of frequent terms) searched with limit
+           1, 2, 3, 5; every returned hit must carry the score it has in the exhaustive search.
 """
 import math
 
 LEVEL = "exploration"
 RULE = ("case = (generated corpus with field/document boosts, lengths around the length-byte steps, 1..4 segments, deletions; "
         "weighting model + parameters; Term probes for every (field, word) and generated query trees); every hit's score is "
-        "compared (rel 1e-6) with the reference / the composition of the children's scores / the same query in another context. "
+        "compared (rel 1e-6) with the reference / the composition of the children's scores / the same query in another context "
+        "(terms recording, filter, limit; every 5th corpus is staged so that limited searches really skip posting blocks). "
         "Non-trivial: at least 2 hits with different scores; distinct = (monitor, query type tree, layout signature, model).")
 ASSUMPTIONS = [
     "reference inputs: weight = float32(tf x field boost x document boost); length = smallest value >= true length of the table int(round((1.033**i-1)*27)); statistics over all documents physically in the index",
@@ -30,7 +34,7 @@ ASSUMPTIONS = [
 SHARDS = {"quick": 6, "thorough": 16}
 BUDGET_S = {"quick": 80, "thorough": 650}
 FLOORS = {"c09.term.scores": 3000, "c09.compose.scores": 3000, "c09.constant.scores": 300, "c09.context.scores": 3000,
-          "c09.layout.scores": 300}
+          "c09.layout.scores": 300, "c09.collector.scores": 2000}
 REL = 1e-6
 
 
@@ -179,6 +183,12 @@ def run(ctx):
         ctx.reseed_global(idx)
         h = model.gen_history(rng, ndocs=(3, 60), boosts=rng.random() < 0.5, maxlen=rng.choice([6, 14, 40]), burst=rng.choice([0.0, 0.1]),
                               delete_modes=("none", "none", "few", "many"))
+        staged = (idx % 5 == 2)
+        if staged:
+            # long multi-block posting lists with a few strong documents early and late: limited searches skip blocks and
+            # rewrite the matcher tree here, and the score of a returned document must not depend on that
+            h = model.gen_staged_history(rng)
+            ctx.count("c09.staged_cases")
         fb = rng.random() < 0.5
         wname, wobj, ref = gen_weighting(rng)
         mname = wname.split("(")[0]
@@ -223,6 +233,27 @@ def run(ctx):
                                          "score %r, reference %r" % (sc, exp))
                                 break
                         ctx.case(("term", f, sig, mname), len(scores) >= 2)
+                # ---- collector independence under block skipping (staged corpora)
+                if staged:
+                    for _ in range(40):
+                        q = model.gen_skip_stress(rng)
+                        w = dict(wb, query=repr(q))
+                        ok, full = ctx.guard("c09.collector", w, hits, s, q)
+                        if not ok:
+                            continue
+                        for k in (1, 2, 3, 5):
+                            ok, top = ctx.guard("c09.collector", dict(w, k=k), lambda: [(hh.docnum, hh.score) for hh in s.search(q, limit=k)])
+                            if not ok:
+                                break
+                            bad = [(dn, sc) for dn, sc in top if dn in full and not near(sc, full[dn])]
+                            ctx.count("c09.collector.scores", len(top))
+                            if bad:
+                                dn, sc = bad[0]
+                                ctx.fail("c09.collector", "limit-vs-exhaustive-score:%s:%s" % (type(q).__name__, mname),
+                                         dict(w, k=k, doc=dn, limited=sc, exhaustive=full[dn]),
+                                         "doc %d scores %r with limit=%d but %r with limit=None" % (dn, sc, k, full[dn]))
+                                break
+                        ctx.case(("collector", model.qshape(q), mname), len(full) > 5)
                 # ---- compose / constant / context monitors
                 unfinal = (lambda sc: (sc - 1.0) / 2.0) if is_final else None
                 for _ in range(10):
